@@ -38,6 +38,7 @@ class Registers:
         self.last_row = None
         self.last_zone = 0
         self.matrix = None
+        self.matrix_name = None
         self.name = None
         self.operand = Operand.NULL
         self.pc = 0
@@ -222,6 +223,10 @@ class Machine:
         mat.overlay_color(rect, color)
 
     def _color_matrix_light(self) -> None:
+        # The matrix goes to the light it was made for: the block may have
+        # assigned to the variable that named it.
+        if self._reg.matrix_name is not None:
+            self._reg.name = self._reg.matrix_name
         light = self._get_named_light()
         if light is not None and not isinstance(light, MatrixLight):
             # Already reported by _matrix(); the script carries on.
@@ -429,6 +434,7 @@ class Machine:
             height = light.get_height()
             width = light.get_width()
         self._reg.matrix = ColorMatrix.new_from_constant(height, width, None)
+        self._reg.matrix_name = name
 
     def _nop(self) -> None: pass
 
